@@ -764,6 +764,15 @@ func runFront(c *Case, front string, p Plan) (outcome, *source) {
 		case "gi:read-each", "gi:read-push":
 			s.Let("sim-stream", &streamObj{Reader: rd})
 			src := `(let ((acc nil)) (read-each sim-stream (lambda (x) (setq acc (cons x acc)))) (reverse acc))`
+			if front == "gi:read-each" && c.Seed%2 == 1 {
+				// The function changes the reader variables (bound by the
+				// scope of this run) as soon as it is handed the first
+				// object: which of the later tokens had been resolved by then
+				// depends on the delivery, so the text is read with the
+				// settings the call started with - as the whole-string read
+				// does (seeded change C02-l2).
+				src = `(let ((acc nil)) (read-each sim-stream (lambda (x) (setq *read-base* 16) (setq *read-default-float-format* 'single-float) (setq acc (cons x acc)))) (reverse acc))`
+			}
 			if front == "gi:read-push" {
 				src = `(let ((ch (make-channel 8192)) (acc nil)) (read-push sim-stream ch) (channel-close ch) (range (lambda (x) (setq acc (cons x acc))) ch) (reverse acc))`
 			}
